@@ -7,8 +7,8 @@
 //!
 //! ops (replies `ok <payload bytes> ...` | `ok` | `panic`):
 //!   `calib <type>`                                   header bytes of the type
-//!   `bitvec <mode> <a> <b>`                          mode new|push|resize|cap
-//!   `bfv <W> <w> <mode> <a> <b>`                     mode new|unaligned|push|resize|cap
+//!   `bitvec <mode> <a> <b>`                          mode new|push|resize|resizes|cap
+//!   `bfv <W> <w> <mode> <a> <b>`                     mode new|unaligned|push|resize|resizes|cap
 //!   `rank9 <len> <density>`                          density id 0..4
 //!   `ranksmall <k> <len> <density>`
 //!   `select9 <len> <ones> <mode>`                    mode 0 = ones spread evenly, 1 = ones first
@@ -115,6 +115,16 @@ fn m_bitvec(mode: &str, a: usize, b: usize) -> Meas {
             v.resize(b, true);
             v
         }
+        // grown by many `resize` calls, each by about a third of the current length
+        "resizes" => {
+            let mut v = BV::new(a);
+            let mut cur = a;
+            while cur < b {
+                cur = Ord::min(b, cur + cur / 3 + 1);
+                v.resize(cur, cur % 2 == 0);
+            }
+            v
+        }
         // growth through `Extend` / `FromIterator` from an iterator whose size hint is NOT exact
         // (upper bound four times the real length), and from an exact one
         "extend" => {
@@ -156,6 +166,15 @@ macro_rules! m_bfv_impl {
                 "resize" => {
                     let mut v = BitFieldVec::<$W>::new(w, a);
                     v.resize(b, 0);
+                    v
+                }
+                "resizes" => {
+                    let mut v = BitFieldVec::<$W>::new(w, a);
+                    let mut cur = a;
+                    while cur < b {
+                        cur = Ord::min(b, cur + cur / 3 + 1);
+                        v.resize(cur, 0);
+                    }
                     v
                 }
                 // `Extend` from an iterator whose size hint is not exact
@@ -577,7 +596,7 @@ fn exec(ctx: &mut Ctx, st: &mut St, op: &str) {
                     let len = match mode {
                         "new" => a,
                         "push" | "extend" | "extendx" | "collect" => a + b,
-                        "resize" => a.max(b),
+                        "resize" | "resizes" => a.max(b),
                         _ => b,
                     };
                     // exact: len bits rounded up to whole words
@@ -595,7 +614,7 @@ fn exec(ctx: &mut Ctx, st: &mut St, op: &str) {
                     let len = match mode {
                         "new" | "unaligned" => a,
                         "push" | "extend" => a + b,
-                        "resize" => a.max(b),
+                        "resize" | "resizes" => a.max(b),
                         _ => b,
                     };
                     let bits = len * w;
@@ -848,6 +867,7 @@ fn directed(ctx: &mut Ctx, st: &mut St) {
     for &(a, b) in &[(0usize, 0usize), (0, 1), (0, 64), (0, 65), (1, 63), (1, 64), (63, 1), (63, 2), (64, 1), (100, 1000), (511, 2), (0, 4097)] {
         exec(ctx, st, &format!("bitvec push {} {}", a, b));
         exec(ctx, st, &format!("bitvec resize {} {}", a, a + b));
+        exec(ctx, st, &format!("bitvec resizes {} {}", a, a + 9 * b + 700));
         exec(ctx, st, &format!("bitvec extend {} {}", a, b));
         exec(ctx, st, &format!("bitvec extendx {} {}", a, b));
         exec(ctx, st, &format!("bitvec collect {} {}", a, b));
@@ -867,6 +887,8 @@ fn directed(ctx: &mut Ctx, st: &mut St) {
             exec(ctx, st, &format!("bfv {} {} push 0 {}", wb, w, 70));
             exec(ctx, st, &format!("bfv {} {} push 5 {}", wb, w, 1));
             exec(ctx, st, &format!("bfv {} {} resize 3 {}", wb, w, 131));
+            exec(ctx, st, &format!("bfv {} {} resizes 3 {}", wb, w, 131));
+            exec(ctx, st, &format!("bfv {} {} resizes {} {}", wb, w, 64 + w, 10_050));
             exec(ctx, st, &format!("bfv {} {} cap 10 {}", wb, w, 0));
             exec(ctx, st, &format!("bfv {} {} cap 10 {}", wb, w, 33));
         }
